@@ -98,7 +98,7 @@ def primary_plan(contexts, messages, ts=IMPLICIT, max_len=16384, calling='CLI', 
 
 
 def sub_plan(store_statuses=None, report_status=0, accept=True, ts_choice=0, log=None, reject=None,
-             respond=True):
+             respond=True, confirm_release=True):
     """Plan for a sub-association opened by the library (C-MOVE destination, commitment report):
     auto-accept every proposed context, answer C-STORE-RQ with the scripted statuses (cycled),
     answer N-EVENT-REPORT-RQ, answer A-RELEASE-RQ."""
@@ -116,7 +116,8 @@ def sub_plan(store_statuses=None, report_status=0, accept=True, ts_choice=0, log
                 ans = [(it['id'], 0, it['ts'][ts_choice % len(it['ts'])]['name']) for it in pcs]
                 return [fd.incoming_pdu(fd.ac_spec(ans, 16384, rec['spec']['called'], rec['spec']['calling']))]
             if t == 5:
-                return [fd.incoming_pdu({'t': 6, 'r1': 0, 'r2': 0})]
+                # (a peer that never confirms the release makes the releasing side run into its time-out)
+                return [fd.incoming_pdu({'t': 6, 'r1': 0, 'r2': 0})] if confirm_release else []
             return []
         cf = rec['fields'].get(0x0100)
         pc_id = rec['pc_ids'][0] if rec['pc_ids'] else 1
